@@ -10,6 +10,9 @@ import OFV.Spec.C12
 import OFV.Proofs.C12
 import OFV.Proofs.C12Maj
 import OFV.Proofs.C12Swap
+import OFV.Proofs.C12Fock
+import Mathlib.Data.Matrix.Mul
+import Mathlib.LinearAlgebra.Matrix.Notation
 
 namespace OFV.C12
 open OFV OFV.Model.C12 OFV.Spec.C12
@@ -95,6 +98,40 @@ energy on that order: 0 instead of -3 (kernel-checked on the Model's `energyOf`)
 theorem test_old_default_rule_counterexample :
     energyOf [1, -1, -2, 3] (List.range (([1, -1, -2, 3] : List Rat).filter (· < 0)).length) 0 = 0 ∧
     groundEnergy [1, -1, -2, 3] 0 = -3 := by decide +kernel
+
+/-! ## Subset sums are eigenvalues (operator level, any representation) -/
+
+open OFV.Car in
+/-- **Fock states of the `b` modes are eigenvectors.**  In every ring `R` acting on a module `V`, for every family
+`b†_j = ad j`, `b_j = a j` (`j < n`) satisfying the canonical anticommutation relations (for the Bogoliubov modes
+`b† = W (a†, a)ᵀ` this is what the canonical constraints on `W` express), and every vacuum `vac` with
+`b_j vac = 0`: the state `b†_{s1} ⋯ b†_{sk} vac` (distinct `s_i < n`) satisfies
+`(Σ_{j ∈ l} ε_j b†_j b_j + c) ψ_S = (c + Σ_{j ∈ l, j ∈ S} ε_j) ψ_S`,
+i.e. every subset sum of the orbital energies (plus the constant) is an eigenvalue, with an explicit eigenvector.
+(Completeness — these `2^n` vectors span the space — is the Fock-space dimension count, not formalised.) -/
+theorem fock_state_energy {R : Type} [Ring R] {V : Type} [AddCommGroup V] [Module R V] (n : Nat)
+    (ad a : Nat → R) (h : CAR n ad a) (vac : V) (hvac : ∀ j, j < n → a j • vac = 0) (ε : Nat → R) (c : R)
+    (S : List Nat) (hnd : S.Nodup) (hS : ∀ s ∈ S, s < n) :
+    (((List.range n).map fun j => ε j * (ad j * a j)).sum + c) • fock ad vac S =
+    (((List.range n).map fun j => if j ∈ S then ε j else 0).sum + c) • fock ad vac S :=
+  hamiltonian_fock h vac hvac ε c S hnd hS (List.range n) (fun _ hj => List.mem_range.mp hj)
+
+-- non-vacuity: one mode as 2 × 2 integer matrices acting on themselves; the vacuum is the projector |0⟩⟨0|
+open OFV.Car Matrix in
+example : CAR 1 (fun _ => (!![0, 0; 1, 0] : Matrix (Fin 2) (Fin 2) ℤ)) (fun _ => !![0, 1; 0, 0]) ∧
+    (∀ j, j < 1 → (fun _ => (!![0, 1; 0, 0] : Matrix (Fin 2) (Fin 2) ℤ)) j • (!![1, 0; 0, 0] : Matrix (Fin 2) (Fin 2) ℤ) = 0) := by
+  refine ⟨⟨?_, ?_, ?_⟩, ?_⟩
+  · intro i j _ _; decide
+  · intro i j _ _; decide
+  · intro i j hi hj
+    have : i = 0 := by omega
+    have : j = 0 := by omega
+    subst_vars
+    simp only [dl, if_true]
+    decide
+  · intro j _
+    show (!![0, 1; 0, 0] : Matrix (Fin 2) (Fin 2) ℤ) • (!![1, 0; 0, 0] : Matrix (Fin 2) (Fin 2) ℤ) = 0
+    decide
 
 /-! ## `majorana_form` -/
 
